@@ -446,8 +446,8 @@ def opUnlock (db : DB) (c : Cmd) : DB × List Reply := applyUnlock db c (classif
 /-! ### timer sweeps -/
 
 /-- `doTimeOut` for a live waiter. No wake pass here (the code has none). -/
-def fireTimeout (db : DB) (w : Waiter) : DB × List Reply :=
-  let k := db.getKey w.cmd.key
+def fireTimeout (db : DB) (key : Nat) (w : Waiter) : DB × List Reply :=
+  let k := db.getKey key
   let ws := removeWaiter k.waiters w
   let k' := { k with waiters := ws, waited := if ws.isEmpty then false else k.waited }
   let db1 := { db with ctr := { db.ctr with waitCount := db.ctr.waitCount - 1, timeoutedCount := db.ctr.timeoutedCount + 1 } }
@@ -513,8 +513,11 @@ def expirePass1 (db : DB) (c : Nat) : DB × List Hold :=
   let r := (slotHolds db c).foldl expireStep (db, [])
   (r.1, r.2 ++ longHolds db c)
 
+/-- fire one collected request, if it is still queued (mirrors `if lock.timeouted { … return }` in `doTimeOut`) -/
 def fireTimeoutStep (acc : DB × List Reply) (w : Waiter) : DB × List Reply :=
-  ((fireTimeout acc.1 w).1, acc.2 ++ (fireTimeout acc.1 w).2)
+  match (acc.1.getKey w.cmd.key).waiters.find? (fun x => x.cmd.req == w.cmd.req && x.conn == w.conn) with
+  | some w' => ((fireTimeout acc.1 w.cmd.key w').1, acc.2 ++ (fireTimeout acc.1 w.cmd.key w').2)
+  | none => acc
 
 /-- fire one collected hold, if that record is still a live holder (an earlier firing of this pass cannot have
 removed it sequentially; the lookup mirrors `if lock.expried { … return }`) -/
